@@ -83,6 +83,13 @@ def one_input(args):
         status["restricted_files"] = v5["status"]
         lines.append({"with": files3(v4), "without": files3(v5)})
         tags.append({"input": idx, "mode": mode, "variant": "-qId/-rId vs restricted files", "qsel": qsel, "rsel": rsel})
+        # V6: one query all alone (a plain one and the last one): runs in which no molecule has a second-pass alignment
+        for solo in (qids[1], qids[-2]):
+            rp6, qp6 = pipecases.write_input(wd, inp, f"v6_{solo}", qsel={solo})
+            v6 = pipecases.run_once(wd, rp6, qp6, f"v6_{solo}", mode, extra)
+            status[f"alone_{solo}"] = v6["status"]
+            lines.append({"with": restrict(f_full, {solo}), "without": restrict(files3(v6), {solo})})
+            tags.append({"input": idx, "mode": mode, "variant": "one query alone", "query": solo})
     finally:
         shutil.rmtree(wd, ignore_errors=True)
     return {"lines": lines, "tags": tags, "status": status, "idx": idx}
@@ -91,8 +98,8 @@ def one_input(args):
 def run(ctx: Ctx):
     quick = ctx.tier == "quick"
     ctx.rule = ("generated inputs (3 references, 9 queries of all kinds) in one of the four modes with one of 8 parameter "
-                "vectors; per input 6 runs: full, two queries removed and the rest reordered, rows of both CMAP files "
-                "shuffled, references reordered, -qId/-rId selection, physically restricted files; TLC compares the "
+                "vectors; per input 8 runs: full, two queries removed and the rest reordered, rows of both CMAP files "
+                "shuffled, references reordered, -qId/-rId selection, physically restricted files, two single-query runs; TLC compares the "
                 "records of the queries present in both runs. non-trivial = distinct (input, variant) comparison in "
                 "which at least one record exists")
     ctx.assumptions = ["no two references give exactly equal seed scores for a query (ties between references would "
